@@ -411,21 +411,23 @@ class Ref:
 
     def e_coalesce(self, n, o):
         fails = set()
+        absorbed_after_present_read = False
         for i, m in enumerate(n["members"]):
             mark = len(self.st.read_log)
             mark_t = len(self.st.touched)
             ok, v = self.attempt(lambda: self.ev(m, o))
-            if not ok:
-                self.st.failed_member_idx.update(range(mark_t, len(self.st.touched)))
             if ok:
                 if i > 0:
                     self.st.labels.add("coalesce-fallthrough")
+                if absorbed_after_present_read:
+                    # an earlier member failed for a reason that depends on a *present* value and the failure was
+                    # absorbed by this member's success (known finding K6)
+                    self.st.labels.add("coalesce-absorbed-value-failure")
                 return v
+            self.st.failed_member_idx.update(range(mark_t, len(self.st.touched)))
             fails |= v.fails
-            if i < len(n["members"]) - 1 and (any(f[0] != "missing" for f in v.fails)
-                                              or any(p for _, p in self.st.read_log[mark:])):
-                # an earlier member failed for a reason that depends on a *present* value (known finding K6)
-                self.st.labels.add("coalesce-absorbed-value-failure")
+            if any(f[0] != "missing" for f in v.fails) or any(p for _, p in self.st.read_log[mark:]):
+                absorbed_after_present_read = True
         raise RFail(fails)
 
     def items(self, n, o):
